@@ -469,8 +469,8 @@ def run(ctx):
         ctx.note(case, P.nontrivial_c10(ast, f), cl)
         ctx.handle(case, fails)
 
-    core.run_given(ctx, P.text_case(), body, ctx.n(3600, 36000), label="c10-text")
-    core.run_given(ctx, model_case(), body, ctx.n(1400, 12000), label="c10-model")
+    core.run_given(ctx, P.text_case(), body, ctx.n(3600, 19000), label="c10-text")
+    core.run_given(ctx, model_case(), body, ctx.n(1400, 6500), label="c10-model")
     ctx.notes["generator_rejected_by_validator"] = seen["rejected"]
     if seen["rejected"] > 0.01 * max(seen["n"], 1):
         raise core.HarnessError("pattern generator unhealthy: %d of %d texts rejected by the third-party validator" % (seen["rejected"], seen["n"]))
